@@ -179,6 +179,30 @@ theorem phiCacheGeometry_small (a powEst : ℕ) (ha : a ≤ 38) : phiCacheGeomet
   have h : min (a - min a 30) 100 ≤ phiTinyMaxA := by unfold phiTinyMaxA; omega
   simp only [h, if_true]
 
+/-- the constructor disables the cache whenever `(uint64_t) std::pow(x, 1 / 2.3) ≤ 1680` (`max_x_size_ < 8`): in exact
+    arithmetic every `x ≤ 2.6·10^7`, in particular the whole `pi_legendre` range of the dispatcher -/
+theorem phiCacheGeometry_lowPow (a powEst : ℕ) (h : powEst ≤ 1680) : phiCacheGeometry a powEst = (0, 0) := by
+  unfold phiCacheGeometry
+  simp only
+  split
+  · rfl
+  · rw [if_pos]
+    have : min powEst (16 <<< 20 / (min (a - min a 30) 100 - phiTinyMaxA) * (240 / 12)) ≤ 1680 :=
+      le_trans (Nat.min_le_left _ _) h
+    omega
+
+/-- a fresh `PhiCache` with the geometry the constructor computes needs NO hypothesis about its arrays when
+    `a ≤ 38` or the `pow` estimate is at most 1680 -/
+theorem cacheOK_of_geometry (c : PhiCacheL1) (a powEst : ℕ) (hc : (c.maxX, c.maxA) = phiCacheGeometry a powEst)
+    (h : a ≤ 38 ∨ powEst ≤ 1680) : CacheOK (c, 0) := by
+  have h0 : phiCacheGeometry a powEst = (0, 0) := by
+    rcases h with h | h
+    · exact phiCacheGeometry_small a powEst h
+    · exact phiCacheGeometry_lowPow a powEst h
+  rw [h0] at hc
+  have : c.maxA = 0 := (Prod.mk.inj hc).2
+  exact cacheOK_noCache c (by omega)
+
 /-- every state the model's own updates reach is legal again: `phi<SIGN>` leaves `max_a_cached_ ≤ max_a_` -/
 theorem cacheOK_step {E : PhiEnv} {A : ℕ} (hE : EnvOK E A) (fuel : ℕ) (sign : ℤ) (x a mac : ℕ) (hf : a < fuel) (ha : a < A)
     (hx : 1 ≤ x) (h : CacheOK (E.cache, mac)) : CacheOK (E.cache, (phiRecAlg E fuel sign x a mac).2) :=
